@@ -120,7 +120,24 @@ def run(tier, selftest=False, only=None):
                 rep.violation("euler", "euler:run-" + tr[0], {"model": m.strengths_dict()})
                 continue
             rd_euler.check_chem(rep, m, tr[1], "euler")
-        rep.traces += len(ms)
+        # a step far beyond the stability limit: the free entries blow up (inf / nan within a few hundred steps);
+        # a flagged entry is never written, so it keeps its value exactly whatever happens around it
+        import numpy as np
+        tru = rd_euler.trajectories(ms, 800, dt=16.0, every=100)
+        blown = 0
+        for m, tr in zip(ms, tru):
+            rep.case(["euler-chem-unstable", m.key()])
+            if tr[0] != "ok":
+                rep.violation("euler", "euler:unstable-step-run-" + tr[0], {"model": m.strengths_dict()})
+                continue
+            if not np.all(np.isfinite(tr[1])):
+                blown += 1
+            rd_euler.check_chem(rep, m, tr[1], "euler-unstable-step")
+        rep.extra["euler_unstable_runs_that_blew_up"] = blown
+        if blown == 0:
+            from ..vlib.report import MachineryError
+            raise MachineryError("no unstable-step Euler run blew up: the regime was not exercised")
+        rep.traces += 2 * len(ms)
     if selftest:
         c07.self_test(rep)
     return rep.finish()
